@@ -883,10 +883,13 @@ class Interp:
         fr = self.stack[-1]
         saved = fr.env
         fr.env = dict(saved)
+        self._comp_iters = []
         try:
             self._comp(e.generators, 0, lambda: out.append(self.ev(e.elt)))
         finally:
             fr.env = saved
+        if self.domain is not None and hasattr(self.domain, 'wrap_comprehension'):
+            return self.domain.wrap_comprehension(self, e, out)
         return out
 
     def e_GeneratorExp(self, e):
